@@ -79,14 +79,22 @@ Theorem C16_oracle_batch : forall m rcap scap cs,
 Proof. exact oracle_batch_model. Qed.
 Print Assumptions C16_oracle_batch.
 
-(* ---- why wf_call asks slices to be shorter than 2^31 bytes: `src.len() as Index` truncates; a slice of 2^32 + 4 bytes
-        passes the check as 4 bytes and the model then copies 2^32 + 4 bytes out of a 16-byte region *)
-Theorem C16_long_slice_witness : forall m,
+(* ---- slice arguments longer than Index::MAX.  wf_call admits them only for accessors that convert the length with a
+        checked conversion (gen_chk_* = true, read off the source).  While an accessor still uses `src.len() as Index`
+        the restriction is necessary: a slice of 2^32 + 4 bytes passes the check as 4 bytes and the model then copies
+        2^32 + 4 bytes out of a 16-byte region; with the checked conversion the same call panics and touches nothing. *)
+Theorem C16_long_slice_witness : forall m, gen_chk_put_bytes = false ->
   touched m 16 8 0 0 (CPutBytes 0 (two32 + 4)) = [(0, 0, two32 + 4)] /\
   fst (fst (observe m 16 8 0 0 (CPutBytes 0 (two32 + 4)))) = Crash /\
   ~ log_inside 16 8 (touched m 16 8 0 0 (CPutBytes 0 (two32 + 4))).
 Proof. exact long_slice_escapes. Qed.
 Print Assumptions C16_long_slice_witness.
+
+Theorem C16_long_slice_rejected : forall m, gen_chk_put_bytes = true ->
+  observe m 16 8 (-1000000) 0 (CPutBytes 0 (two32 + 4)) = (Panic, [], []) /\
+  touched m 16 8 (-1000000) 0 (CPutBytes 0 (two32 + 4)) = [].
+Proof. exact long_slice_rejected. Qed.
+Print Assumptions C16_long_slice_rejected.
 
 (* ---- non-vacuity: concrete accepted / rejected inputs, a concrete chain of views, and concrete observations *)
 Example C16_guard_examples :
@@ -106,7 +114,7 @@ Proof.
   assert (W : wf_env (root_env Release 64 8)) by (apply root_env_wf; unfold size32, two31; lia).
   split; [exact W | split].
   - apply view_env_wf; [apply view_env_wf; [exact W | reflexivity | reflexivity] | reflexivity | reflexivity].
-  - cbn. unfold i32, size32, two31. repeat split; try reflexivity; lia.
+  - cbn. unfold slice_ok, i32, size32, two31. repeat split; try reflexivity; try lia; left; lia.
 Qed.
 
 Example C16_observation_examples :
